@@ -20,7 +20,7 @@ CLAIMED = {
             "across units for all finite magnitudes on representative pairs"),
     "C12": ("E1+E2", "Kani/CBMC on number and colour equality; MIR symbolic execution of Numeric::partial_cmp",
             "bounded model checking: symmetry / reflexivity / trichotomy of number, numeric and rgba colour equality for ALL non-NaN doubles"),
-    "C13": ("E1", "Kani/CBMC bounded model checking of the real generic OrderMap (one instantiation)",
+    "C13": ("E1+E2", "Kani/CBMC bounded model checking of the real generic OrderMap (one instantiation); MIR symbolic execution of map.merge's do_merge",
             "bounded model checking, inductive step: one map operation from an arbitrary valid map of up to 3 entries, keys with a coarse =="),
     "C14": ("E1+E2", "Kani on is_true; MIR symbolic execution (z3+cvc5) of Operator::eval, BinOp::eval and the unary-not arm",
             "bounded model checking: truthiness table over every value kind; and/or operand selection by identity and short-circuit "
